@@ -46,14 +46,15 @@ def showErr : Err → String
   | .notEnough none => "err kind=notenough(none)"
   | .notEnough (some n) => s!"err kind=notenough({n})"
 
-/-- `c12.root beacon=N dirs=[(xname,[entries]),…] cache=[(xname,xdigest),…]` -/
+/-- `c12.root beacon=N prov=none|some dirs=[(xname,[entries]),…] cache=[(xname,xdigest),…]` -/
 def rootReq (r : Req) : Option String := do
   let beacon ← r.nat "beacon"
+  let prov ← r.str "prov"
   let dirs ← (← r.list "dirs").mapM parseDir
   let cache ← (← r.list "cache").mapM parseCache
   match Digester.root (fun (d : Bytes) => d) b2s cache dirs beacon with
   | .error e => pure (showErr e)
-  | .ok res => pure s!"ok root={hexEncode res.root} n={res.leaves.length} cache={showCache res.cache}"
+  | .ok res => pure s!"ok root={hexEncode res.root} cache={if prov == "none" then "[]" else showCache res.cache}"
 
 /-- `c12.b2s msg=<hex>`: Blake2s-256 test vector -/
 def b2sReq (r : Req) : Option String := do
